@@ -33,8 +33,7 @@ pm = app.fake_pm
 d = {"fake_pm_args": [pm.noise_min, pm.noise_max, pm.trx_min, pm.trx_max],
      "append_trx_kwargs": [{"child_mgt": bool(bts.child_mgt)}, {"child_mgt": bool(ms.child_mgt)}],
      "ctrl_recv": asked["ctrl"], "data_recv": asked["data"]}
-if app.clck_gen._thread is not None:
-    app.clck_gen.stop()
+app.clck_gen.stop()          # a no-op when no worker thread exists
 d.update({
   "nominal_tx_power": F.NOMINAL_TX_POWER_DEFAULT, "tx_att": F.TX_ATT_DEFAULT, "path_loss": F.PATH_LOSS_DEFAULT,
   "toa256_base": F.TOA256_BASE_DEFAULT, "ci_base": F.CI_BASE_DEFAULT,
